@@ -154,9 +154,9 @@ CLAIMED.update({
 
 CLAIMED.update({
     "C03": {
-        "text": "PARTIAL. A reference interpreter on SYNTAX TREES (Ref/RefSem.v: LET, PRINT with ; and , , IF/THEN/ELSE, GOTO, GOSUB/RETURN, FOR/TO/STEP/NEXT, READ/DATA/RESTORE, DIM and cells of 1-3 dimensions, DEF FN with dynamic parameter scoping, END, RND; no token stream, no cursor, no host turns) written from the documented semantics. Coq theorems (closed under the global context): the yardstick has the documented behaviours the property lists - a FOR body always runs once with limit and step fixed at entry, NEXT forgets inner loops, undefined variables read as 0 / empty string, implicit arrays have indices 0..10, READ consumes DATA in line order (C03_ref_*); and on the expression fragment of C02 the reference evaluator computes the same fold the token walker is proved to compute, so for every tree and EVERY legal spelling model = reference is a theorem (C03_expr_reference_is_fold, C03_expr_model_is_reference); and at STATEMENT level the assignment statement `v = e`, in any legal token spelling, from any cursor position, is simulated: the model's statement evaluator and the reference exec succeed together into stores related again by the simulation relation same_store (so the step composes) or fail together with the same error kind and unchanged stores (C03_let_statement_simulates, and likewise PRINT with any item list: C03_print_statement_simulates; Proofs/StmtSim.v); and for WHOLE PROGRAMS of the fragment {scalar assignment, PRINT, GOTO, GOSUB, RETURN, IF c THEN line, END} - counter machines with subroutines and a bounded return stack (STACK OVERFLOW at the documented depth, RETURN WITHOUT GOSUB), programs that loop, branch, recurse and need not terminate - a simulation theorem by induction over executions (C03_fragment_simulation; Proofs/ProgSim.v): for any reference program of the fragment and ANY legal token spelling of it stored in the model, after every number of reference steps the model - after finitely many host calls, each with enough fuel; the colon turns and the in-call line advance are absorbed - is at the corresponding place with the corresponding variable store having printed the reference's output records; when the reference ends the model is idle with exactly that output; when it fails the model's call fails with the same error kind on the same line and the host call start_evaluating(RUN) on such a stored program is the first call of that run (C03_run_simulates) (non-vacuity: a counting loop, and a subroutine called from a colon line, typed into a fresh interpreter, tokens by the tokenizer, run to completion by the theorem). For the full language the whole-program claim is decided on every run by execution: programs are generated as syntax trees, rendered to BASIC text for the implementation and to a Coq term for the reference interpreter, which is evaluated INSIDE Coq and must produce exactly the implementation's printed records, error kind and error line; the same sessions are compared with the model turn by turn.",
+        "text": "PARTIAL. A reference interpreter on SYNTAX TREES (Ref/RefSem.v: LET, PRINT with ; and , , IF/THEN/ELSE, GOTO, GOSUB/RETURN, FOR/TO/STEP/NEXT, READ/DATA/RESTORE, DIM and cells of 1-3 dimensions, DEF FN with dynamic parameter scoping, END, RND; no token stream, no cursor, no host turns) written from the documented semantics. Coq theorems (closed under the global context): the yardstick has the documented behaviours the property lists - a FOR body always runs once with limit and step fixed at entry, NEXT forgets inner loops, undefined variables read as 0 / empty string, implicit arrays have indices 0..10, READ consumes DATA in line order (C03_ref_*); and on the expression fragment of C02 the reference evaluator computes the same fold the token walker is proved to compute, so for every tree and EVERY legal spelling model = reference is a theorem (C03_expr_reference_is_fold, C03_expr_model_is_reference); and at STATEMENT level the assignment statement `v = e`, in any legal token spelling, from any cursor position, is simulated: the model's statement evaluator and the reference exec succeed together into stores related again by the simulation relation same_store (so the step composes) or fail together with the same error kind and unchanged stores (C03_let_statement_simulates, and likewise PRINT with any item list: C03_print_statement_simulates; Proofs/StmtSim.v); and for WHOLE PROGRAMS of the fragment {scalar assignment, PRINT, GOTO, GOSUB, RETURN, FOR/TO/STEP, NEXT, IF c THEN line, END} - counter machines with subroutines, a bounded return stack (STACK OVERFLOW at the documented depth, RETURN WITHOUT GOSUB) and FOR loops exactly as documented (limit and step fixed at entry, the body always runs once, a FOR on a variable forgets the earlier loop on it and everything nested inside, NEXT forgets inner loops, NEXT WITHOUT FOR, the 32-loop cap), programs that loop, branch, recurse and need not terminate - a simulation theorem by induction over executions (C03_fragment_simulation; Proofs/ProgSim.v): for any reference program of the fragment and ANY legal token spelling of it stored in the model, after every number of reference steps the model - after finitely many host calls, each with enough fuel; the colon turns and the in-call line advance are absorbed - is at the corresponding place with the corresponding variable store having printed the reference's output records; when the reference ends the model is idle with exactly that output; when it fails the model's call fails with the same error kind on the same line and the host call start_evaluating(RUN) on such a stored program is the first call of that run (C03_run_simulates) (non-vacuity: a counting loop, a subroutine called from a colon line, and a FOR..STEP loop, typed into a fresh interpreter, tokens by the tokenizer, run to completion by the theorem). For the full language the whole-program claim is decided on every run by execution: programs are generated as syntax trees, rendered to BASIC text for the implementation and to a Coq term for the reference interpreter, which is evaluated INSIDE Coq and must produce exactly the implementation's printed records, error kind and error line; the same sessions are compared with the model turn by turn.",
         "design_ref": "DESIGN.md 6 C03",
-        "note": NOTE + "PARTIAL: the whole-program simulation is proved for the fragment {LET scalar, PRINT, GOTO, GOSUB, RETURN, IF..THEN line, END}; for the other statements (FOR/NEXT, READ/DATA, DIM and arrays, DEF FN, ELSE, IF..THEN statement) it is validated by the Coq-evaluated reference oracle, not proved. ^ and INPUT are outside the C03 grammar; programs still running after 1500 host calls are not compared.",
+        "note": NOTE + "PARTIAL: the whole-program simulation is proved for the fragment {LET scalar, PRINT, GOTO, GOSUB, RETURN, FOR/NEXT, IF..THEN line, END}; for the other statements (READ/DATA, DIM and arrays, DEF FN, ELSE, IF..THEN statement) it is validated by the Coq-evaluated reference oracle, not proved. ^ and INPUT are outside the C03 grammar; programs still running after 1500 host calls are not compared.",
         "technique": "Coq: reference semantics + theorems about it + expression-level model=reference theorem (via C02); whole programs decided by the reference interpreter evaluated in Coq against the implementation + model correspondence",
     },
 })
